@@ -1,5 +1,6 @@
 import PGV.Driver.Common
 import PGV.Driver.C14
+import PGV.Driver.C09
 
 open PGV PGV.Driver
 
@@ -12,6 +13,7 @@ def dispatch (line : String) : String :=
     let r : Option Reply :=
       match op with
       | "split" | "parse" | "gen" | "rmset" | "rt" => C14.handle op args impl
+      | "lru" => C09.handle op args impl
       | _ => none
     match r with
     | some r => r.render
